@@ -109,6 +109,30 @@ func judge(p docgen.Plan, o *vh.Obs) {
 			}
 		}
 	}
+	// a line priced through its breakdown: the presented item price is the sum of
+	// the sub-line totals rounded to the sub-lines' price decimals, and the line
+	// sum is that price times the quantity. Under the precise rule the line
+	// total may then sit a full unit from the exact value (recorded finding).
+	if env.Rule == "precise" {
+		unit := new(big.Rat).SetFrac(big.NewInt(1), ratref.Pow10(env.C))
+		for i, l := range p.Lines {
+			if i >= len(ref.Derived) || ref.Derived[i].Units == nil || ref.Prices[i].Units == nil {
+				continue
+			}
+			o.Class("breakdown-priced-line")
+			q, err := ratref.ParseDec(l.Quantity)
+			if err != nil {
+				continue
+			}
+			dev := new(big.Rat).Sub(ref.Derived[i].Rat(), ref.Prices[i].Rat())
+			dev.Mul(dev, q.Rat())
+			if dev.Abs(dev).Cmp(unit) >= 0 {
+				o.Failf("exact:breakdown-price-rounded", "lines[%d]: the sub-lines add up to %s, presented as the item price %s; times the quantity %s the line sum is %s away from the exact value (precise rule)",
+					i, ref.Derived[i].String(), ref.Prices[i].String(), l.Quantity, dev.FloatString(env.C+2))
+				return
+			}
+		}
+	}
 	// currency conversion, judged without the stepwise model: the presented item
 	// price is the exact product rounded to the document currency (allowing the
 	// documented intermediate rounding at the finer of the two precisions)
